@@ -32,6 +32,8 @@ def run_pair(cfg, hist, seed):
                                    [int(getattr(m, 'bias', None) is not None) for m in mods_of(model)])
     obs = lambda r, ev, e, model, p: [combined_grad(m) for m in mods_of(model)] if e[0] == 'train' else None
     cfgB = dict(cfg); cfgB['kl_clip'] = None
+    if cfg.get('sched'):
+        cfgB['sched'] = {a: b for a, b in cfg['sched'].items() if a != 'kl_clip'}
     wa = kfacrun.run(cfg, hist, cfg['W'], seed=seed, observe=obs, pre_step=pre)
     wb = kfacrun.run(cfgB, hist, cfg['W'], seed=seed, observe=obs, pre_step=pre)
     return wa, wb
@@ -125,6 +127,12 @@ def run(tier, seed, rng):
         if zero:
             cfg['zero_grads'] = True
         hist = [['train', cfg['accumulation_steps']] for _ in range(rng.randint(1, 3))]
+        if k % 4 == 1 and not isinstance(cfg['lr'], list) and mode not in ('none',):
+            # a scheduler multiplies the constant lr (and a constant kl_clip) between the steps
+            cfg['sched'] = {'lr': ['table', [rng.choice([2.0, 0.5, 4.0]) for _ in range(8)]]}
+            if not isinstance(cfg['kl_clip'], list) and cfg['kl_clip'] is not None:
+                cfg['sched']['kl_clip'] = ['table', [rng.choice([2.0, 0.5]) for _ in range(8)]]
+            hist = [['train', cfg['accumulation_steps']], ['sched', None], ['train', cfg['accumulation_steps']], ['sched', None], ['train', cfg['accumulation_steps']]]
         if zero:
             continue_zero = True
         wa, wb = run_pair(cfg, hist, seed + k)
